@@ -20,6 +20,8 @@ type Obligation struct {
 	Goal   Term // the negated goal: sat = refuted
 	Script *Script
 	Cover  bool // cover obligations must be SAT
+	// NAsserts: how many assertions of the shared script precede this obligation (-1: all)
+	NAsserts int
 	// results
 	Status string // unsat | sat | unknown
 	Solver string
@@ -138,11 +140,11 @@ func (x *Enc) addObl(kind, label, text string, pos token.Pos, guard, goal Term) 
 		p = fmt.Sprintf("%s:%d", strings.TrimPrefix(pp.Filename, x.eng.repo+"/"), pp.Line)
 	}
 	x.obls = append(x.obls, &Obligation{Name: name, Kind: kind, Func: x.top.String(), Pos: p, Text: text,
-		Goal: and(guard, not(goal)), Script: x.sc})
+		Goal: and(guard, not(goal)), Script: x.sc, NAsserts: len(x.sc.asserts)})
 }
 
 func (x *Enc) addCover(label string, pos token.Pos, cond Term) {
-	x.obls = append(x.obls, &Obligation{Name: label, Kind: "cover", Func: x.top.String(), Goal: cond, Script: x.sc, Cover: true})
+	x.obls = append(x.obls, &Obligation{Name: label, Kind: "cover", Func: x.top.String(), Goal: cond, Script: x.sc, Cover: true, NAsserts: len(x.sc.asserts)})
 }
 
 func (x *Enc) encodeTop() {
